@@ -379,6 +379,8 @@ def _dict_flatten(data):
         """Expand list."""
 
         if isinstance(value, dict):
+            if not value:  # Keep empty dicts: sentinel entry 'key>'.
+                return [(key+'>', np.array(0))]
             return [(key+'>'+k, v) for k, v in _dict_flatten(value).items()]
         else:
             return [(key, value)]
@@ -425,6 +427,10 @@ def _dict_unflatten(data):
 
             # Add value to subdict.
             tmp = tmp[part]
+
+        # Sentinel of an empty dict ('key>'): the dict exists now, done.
+        if len(parts) > 1 and parts[-1] == '':
+            continue
 
         # Convert numpy strings to str.
         if isinstance(value, np.ndarray) and value.dtype.type == np.str_:
